@@ -231,6 +231,7 @@ class PoolHarness:
         self.started = set()
         self.pick = {}
         self.marking = set()        # borrowers parked between reading _connection and the pool lock
+        self.late = 0               # connection whose late response the loop thread is in the middle of
         self.tphase = None          # phase of the running _replace thread: open / publish / retire
         self.tname = None
         self.tcount = 0
@@ -346,7 +347,28 @@ class PoolHarness:
         p = self._pending(a["c"], a["r"])
         self.node.respond_rows(p, [("tag", wire.T_INT)], [[wire.w_int(a["r"])]])
 
-    act_RespondLate = act_Respond
+    def act_LateStart(self, a):
+        """The loop thread handles a late answer: as a logical thread, up to the end of the critical section on the
+        connection's lock in which process_msg releases the orphaned stream."""
+        p = self._pending(a["c"], a["r"])
+        if self.late:
+            raise HarnessRefusal("the loop thread is still inside another late response")
+        self.lcount = getattr(self, "lcount", 0) + 1
+        self.lname = "L%d" % self.lcount
+        self.sched.spawn(self.lname, self.node.respond_rows, p, [("tag", wire.T_INT)], [[wire.w_int(a["r"])]])
+        self._run(self.lname, lambda l: l == "rel:conn%d@process_msg" % a["c"])
+        self.late = a["c"]
+
+    def act_LateFinish(self, a):
+        if not self.late:
+            raise HarnessRefusal("the loop thread is not inside a late response")
+        if not self.sched.threads[self.lname].done:
+            self._finish(self.lname)
+        self.late = 0
+
+    def act_RespondLate(self, a):          # both halves at once (older replay files and reproductions)
+        self.act_LateStart(a)
+        self.act_LateFinish(a)
 
     def act_Timeout(self, a):
         f = self.futures.get(a["r"])
@@ -512,6 +534,7 @@ class PoolHarness:
             else:
                 st[r] = "sent"
         out["st"], out["on"] = st, on
+        out["late"] = self.late
         return out
 
     def abandoned(self):
@@ -559,10 +582,17 @@ def spec_view(s):
     return out
 
 
-def diff(spec, real):
+def diff(spec, real, late=0):
+    """`late`: connection whose late response is half handled - its in_flight / orphan set are in flux inside
+    process_msg and are not compared until the callback is over (what the property needs is judged through the
+    steps other threads take meanwhile)."""
     out = {}
     for k in PoolHarness.VARS:
-        if spec[k] != real[k]:
+        a, b = spec[k], real[k]
+        if late and k in ("inflight", "orph"):
+            a = {c: v for c, v in a.items() if c != late}
+            b = {c: v for c, v in b.items() if c != late}
+        if a != b:
             out[k] = {"spec": spec[k], "code": real[k]}
     return out
 
@@ -642,7 +672,7 @@ def replay(constants, states, repair=True):
                 return {"step": i, "action": act, "signature": "replay:%s:exception:%s" % (act["name"], type(ex).__name__),
                         "diff": {"_exception": {"spec": "no exception", "code": "%s: %s" % (type(ex).__name__, ex)}}}, met
             sv = spec_view(s)
-            d = diff(sv, h.project())
+            d = diff(sv, h.project(), s["late"])
             if d:
                 sig = classify(act, states[i - 1], s, d)
                 rec = {"step": i, "action": act, "diff": d, "signature": sig}
@@ -653,7 +683,7 @@ def replay(constants, states, repair=True):
                     except Exception as ex:
                         rec["repair_failed"] = "%s: %s" % (type(ex).__name__, ex)
                         return rec, met
-                    d2 = diff(sv, h.project())
+                    d2 = diff(sv, h.project(), s["late"])
                     if d2:
                         rec["after_repair"] = d2
                         rec["signature"] = sig + "+other"
@@ -683,7 +713,7 @@ def _post(p, reqs, n):
         "defunct": [p["defunct"][i] for i in rng], "signaled": [p["signaled"][i] for i in rng],
         "cur": p["cur"], "trash": sorted(p["trash"]), "replacing": p["replacing"], "shutdown": p["shutdown"],
         "queued": p["queued"], "opened": p["opened"],
-        "st": [p["st"][r] for r in reqs], "on": [p["on"][r] for r in reqs],
+        "st": [p["st"][r] for r in reqs], "on": [p["on"][r] for r in reqs], "late": p.get("late", 0),
     }
 
 
@@ -721,12 +751,18 @@ def record(constants, rng, max_events=60, p_fail=0.08, p_shutdown=0.08):
                     ops += [{"e": "Send", "r": r, "f": down}] * 2
                 elif f is not None and f._final_exception is None and f._final_result is cassandra.cluster._NOT_SET \
                         and f._timer is not None and not f._timer.canceled:
-                    ops += [{"e": "Timeout", "r": r}] * 3
+                    if not h.late:
+                        ops += [{"e": "Timeout", "r": r}] * 3
             for p in h.node.pending:
                 if p.conn in h.conns and not p.conn.is_closed and p.req.get("op") == "QUERY":
-                    op = {"e": "Respond", "c": h.conns.index(p.conn) + 1, "r": int(p.req["query"].split()[1])}
+                    late = p.frame.stream not in p.conn._requests
+                    if h.late:
+                        continue                       # the loop thread is busy
+                    op = {"e": "LateStart" if late else "Respond", "c": h.conns.index(p.conn) + 1, "r": int(p.req["query"].split()[1])}
                     ops.append(op)
-            if cfails < constants["MaxConnFails"] and rng.random() < p_fail:
+            if h.late:
+                ops += [{"e": "LateFinish"}] * 2
+            if cfails < constants["MaxConnFails"] and rng.random() < p_fail and not h.late:
                 for i, c in enumerate(h.conns, 1):
                     if not c.is_closed and not (h.tphase in ("use", "publish") and i == len(h.conns)):
                         if not c._requests:
